@@ -23,6 +23,16 @@ CHECKS = {
     text="Decides only the second sentence's structural core: on every path of solve() (all extrapolation modes, cycles, FMG on/off, tolerance combinations, norm types, 1..3 iterations, every outcome of every stop test) the number compared with the tolerance is the configured norm of the (extrapolated) residual of the iterate currently held, converged() returns true only through value<=tolerance with the right pairing, the relative value is current/initial of this solve, and an early stop returns exactly the tested iterate. Whether the iteration converges, and its rate, are numerical statements static analysis cannot bound.",
     note="Trusted: as C10. Not decided: convergence within the budget, mean reduction factor < 1.",
     ref="DESIGN.md section 4 / C01"),
+ "C13": dict(
+    level="other", technique="static analysis: value-flow of setup();solve();solve() with history marked STALE (taint to branches and outputs)",
+    text="setup(); solve(); solve() is interpreted from source per option mode; after the first solve every work vector and every member solve() wrote is replaced by a STALE marker, and the second solve's branch conditions and outputs (solution term, iteration count, reduction factor, error figures through the public accessors) must not contain one. setup() must re-define every setup-owned member and clear levels_ first. This makes the history quantifier finite: any dependence on earlier solves has to flow through one of those members, whatever the sequence length.",
+    note="Trusted: as C10. Excluded: timing members (accumulate by design). Not decided: equality of floating-point results between a reused and a fresh object beyond 'same term'.",
+    ref="DESIGN.md section 4 / C13"),
+ "C20": dict(
+    level="other", technique="static analysis: definedness (definite-assignment) analysis of setup()+solve()+accessors per option mode; structural option-table rules",
+    text="Decides the driver-level part: for the cross product of extrapolation, FMG, enabled/disabled tolerances, exact solution present or not, 0..2 iterations, verbose and paraview, with every stop-test outcome explored, no path of setup()+solve()+statistics accessors reads an unassigned scalar, accesses an empty list, dereferences a null input function, unwraps a disabled tolerance or uses a vector/operator setup() did not allocate/initialise in that mode. Option tables and mandated rejections are structural rules over the parser (added as they are built).",
+    note="Trusted: as C10; NDEBUG build as shipped. Not decided: memory safety of the numerical kernels for all inputs (C18 covers grid generation, C11 the parallel regions on representative shapes), debug-build assertions.",
+    ref="DESIGN.md section 4 / C20"),
 }
 NA = {
  "C02": "order of accuracy is a limit statement about numerical error under refinement; no clause is visible in the shape of the code (its code-shaped preconditions are checked under C03/C10/C19)",
